@@ -200,6 +200,27 @@ C03 = tree_spec('C03', ['src', 'e10', 'e00', 'm1', 'm0'], gen_ascii_trees, 'ChkT
     'attribution semantics Sem/Attr.v; chk_C03 compares per output byte the attribution through map() with the attribution by the covering chunk, and map()=None iff no mapped chunk')
 C07 = tree_spec('C07', TREE_KEYS_TEXT, lambda rng, tier: gen_c01(rng, tier), 'ChkTree.chk_C07',
     'text views of the model (source, buffer, size, rope, to_writer payloads) vs the crate; chk_C07 states the agreement clauses')
+def ser_wr(obj):
+    return 'wr %s %d %d' % (gen_tree.ser_node(obj['t']), obj['cap'], 1 if obj['short'] else 0)
+def shrink_wr(obj):
+    for t2 in gen_tree.shrink_node(obj['t']):
+        yield {'t': t2, 'cap': obj['cap'], 'short': obj['short']}
+    if obj['cap'] > 0:
+        yield {'t': obj['t'], 'cap': obj['cap'] - 1, 'short': obj['short']}
+def gen_c07(rng, tier):
+    out = gen_c01(rng, tier)
+    nw = 300 if tier == 'quick' else 5000
+    cfgs = [gen_tree.Cfg(ascii=True), gen_tree.Cfg(ascii=False, bufs=0.2, invalid_utf8=0.3)]
+    for i in range(nw):
+        c = gen_tree.gen_tree_case(rng, cfgs[i % 2])
+        size = len(gen_tree.text_of(c.obj['t'])) + 3
+        # writers that fail after k bytes, for every k
+        for k in range(0, min(size, 24) + 1):
+            out.append(Case('wr', {'t': c.obj['t'], 'cap': k, 'short': (k + i) % 2 == 0}, {'nontrivial', 'failing_writer'} | c.feats))
+    return out
+C07.gen = gen_c07
+C07.kinds['wr'] = {'ser': ser_wr, 'proj': None, 'shrink': shrink_wr}
+
 C08 = tree_spec('C08', ['src'] + STREAM_KEYS + MAP_KEYS, None, 'ChkTree.chk_C08',
     'chk_C08 compares the attribution of all four streams of a SourceMapSource / user-defined source with looking positions up in the given map')
 C11 = tree_spec('C11', STREAM_KEYS + MAP_KEYS, gen_ascii_trees, 'ChkTree.chk_C11',
@@ -312,7 +333,39 @@ def gen_c04(rng, tier):
 C04 = tree_spec('C04', ['src', 'm1', 'm0'], gen_c04, 'ChkProv.chk_C04',
     'independent provenance semantics Sem/Prov.v (no chunks, no tokens): chk_C04 checks every mapped segment of map(), every surviving original byte, raw bytes, statement starts, the sources/sourcesContent tables and the line attribution with columns=false against it')
 
-REGISTRY = {'C04': C04, 'C12': C12, 'C16': C16, 'C01': C01, 'C05': C05, 'C10': C10, 'C13': C13, 'C14': C14, 'C20': C20, 'C02': C02, 'C03': C03, 'C07': C07, 'C08': C08, 'C11': C11}
+def gen_c06(rng, tier):
+    n = 2500 if tier == 'quick' else 100000
+    cfgs = [gen_tree.Cfg(ascii=True, sms=0.45, names=0.6), gen_tree.Cfg(ascii=True, sms=0.3, names=0.6, replace=0.3),
+            gen_tree.Cfg(ascii=True, sms=0.3, inner=0.3)]
+    out = []
+    for i in range(n):
+        g = gen_tree.Gen(rng, cfgs[i % len(cfgs)])
+        if i % 2 == 0:
+            k = rng.randrange(1, 5)
+            t = ('concat', rng.choice(['new', 'add']), [(False, g.node(rng.randrange(0, 3))) for _ in range(k)])
+        else:
+            inner = g.node(rng.randrange(0, 3))
+            t = ('repl', inner, g.replacements(gen_tree.text_of(inner)))
+        feats = gen_tree.kinds_of(t, set())
+        if len(gen_tree.text_of(t)) >= 2:
+            feats.add('nontrivial')
+        out.append(Case('comp', {'t': t}, feats))
+    return out
+
+def shrink_comp(obj):
+    t = obj['t']
+    for t2 in gen_tree.shrink_node(t):
+        if t2[0] == t[0] and (t2[0] != 'concat' or all(not ty for ty, _ in t2[2])):
+            yield {'t': t2}
+
+C06 = Spec('C06',
+    kinds={'comp': {'ser': lambda obj: 'comp ' + gen_tree.ser_node(obj['t']), 'proj': None, 'shrink': shrink_comp}},
+    gen=gen_c06,
+    rule='a ConcatSource of 1-4 boxed children or a ReplaceSource (0-4 replacements, named or not) over random ASCII trees with SourceMapSource leaves (1-3 sources, shared and distinct file names, with/without sourcesContent, names); the composite and every child are streamed standalone with both column settings',
+    explanation='chk_C06 compares the per-byte attribution of the composite stream with (Concat) the concatenation of the children\'s own attributions and contents, (Replace) a reference written over byte positions: cuts, pieces whose column advances only where the recorded original content matches, emission points of replacement content',
+    checker_name='ChkComp.chk_C06', model_name='Stream/Concat.v, Stream/Replace.v')
+
+REGISTRY = {'C06': C06, 'C04': C04, 'C12': C12, 'C16': C16, 'C01': C01, 'C05': C05, 'C10': C10, 'C13': C13, 'C14': C14, 'C20': C20, 'C02': C02, 'C03': C03, 'C07': C07, 'C08': C08, 'C11': C11}
 
 def get(pid):
     return REGISTRY[pid]
